@@ -425,6 +425,22 @@ def verdicts (st : DState) (op : String) (args : List String) (goRes : String) :
            | _, _ => [("C04", "join-accept-encrypt-accepts-what-spec-rejects")])
         | _, _ => []
       | none => []
+    | "decja", toks =>
+      match parseArgs toks (do let k ← hex; let p ← frame; pure (k, p)) with
+      | some (k, p) =>
+        match p.payload, res with
+        | some (.data ct), some out =>
+          (match parseArgs out frame with
+           | some q =>
+             let pt := Spec.deviceDecryptJoinAccept E k (ct ++ p.mic)
+             (match q.payload, JoinAccept.dec {} (pt.take (pt.length - 4)) with
+              | some (.joinAccept ja), .ok want =>
+                if ja == want && q.mic == pt.drop (pt.length - 4) then [] else [("C04", "join-accept-decrypt-differs-from-spec")]
+              | some (.joinAccept _), _ => [("C04", "join-accept-decrypt-accepts-what-spec-rejects")]
+              | _, _ => [])
+           | none => [("*", "unparsable-result")])
+        | _, _ => []
+      | none => []
     | "exchange", toks =>
       match parseArgs toks (do
         let v ← nat; let c ← nat; let dr ← nat; let ch ← nat; let fk ← hex; let sk ← hex; let ek ← hex; let ak ← hex
